@@ -432,6 +432,16 @@ static void run() {
   vshim::g_flags = vshim::RunFlags();
   vpar::reset(sc);
   if (sc.strategy != vpar::FIRST && c.eff_threads > 1 && c.len > 0) mark_nontrivial();
+  static const char* FUNCS[] = {"parallel_range", "parallel_range_blocks", "parallel_range_blocks_multi"};
+  static const char* TYPES_N[] = {"uint8_t", "uint16_t", "uint32_t", "uint64_t", "int32_t", "int64_t"};
+  static const char* OFFS[] = {"0", "1", "100", "near the type's maximum"};
+  static const char* PROG[] = {"none", "recorder", "default"};
+  static const char* STRAT[] = {"run-to-completion", "uniform", "PCT", "starve one task", "round-robin"};
+  if (verbose()) {
+    note(string(FUNCS[c.func]) + "<" + TYPES_N[type] + "> range of " + std::to_string(c.len) + " values starting at " + OFFS[c.offset_kind] + ", block " + std::to_string(c.block) +
+        (c.block_divides ? "" : " (does not divide the range)") + ", num_threads=" + std::to_string(c.threads) + ", true-mask=" + std::to_string(c.true_mask) + ", progress=" + PROG[c.progress] +
+        ", schedule strategy=" + STRAT[sc.strategy] + "; events are: <operation> <from-task> <to-task> <argument>");
+  }
   ev("cfg", c.func * 100 + type * 10 + c.threads, c.len * 100 + c.block, c.true_mask);
   ev("cfg2", c.offset_kind * 10 + c.slack, c.progress, sc.strategy);
 
